@@ -154,8 +154,9 @@ class FieldsWorld(World):
         if prop == "C11":
             racc = rng.choice(["r", "w", "rw", "rw"])
             coll = self._gen_coll(rng, 0, racc)
-            return {"kind": "register", "access": racc, "coll": coll,
-                    "annot": int(coll["t"] == "dict" and rng.chance(0.4))}
+            annot = int(coll["t"] == "dict" and rng.chance(0.4))
+            return {"kind": "register", "access": racc, "coll": coll, "annot": annot,
+                    "annot_base": int(bool(annot) and rng.chance(0.3))}
         if rng.chance(0.2):
             from worlds.components import gen_register
             return {"kind": "regreal", "reg": gen_register(rng)}
@@ -250,8 +251,18 @@ class FieldsWorld(World):
         coll = build(config["coll"])
         try:
             if config.get("annot") and isinstance(coll, dict):
-                cls = type("AnnotReg", (csr.Register,), {"__annotations__": dict(coll)},
-                           access=racc)
+                base = csr.Register
+                if config.get("annot_base"):
+                    # the register class extends another annotated register class, of which an
+                    # instance already exists (Python does not merge class annotations)
+                    base = type("BaseReg", (csr.Register,),
+                                {"__annotations__": {"zz": csr.Field(MockAction, 3, "nc")}},
+                                access=racc)
+                    base()
+                    stats.probe("annotated_subclass_of_instantiated_annotated_class")
+                    cls = type("AnnotReg", (base,), {"__annotations__": dict(coll)})
+                else:
+                    cls = type("AnnotReg", (base,), {"__annotations__": dict(coll)}, access=racc)
                 reg = cls()
             else:
                 reg = csr.Register(coll, access=racc)
